@@ -1088,6 +1088,7 @@ def main_check(cid, tier, base_seed, jobs=None):
     known_hits = {}
     reported = 0
     seen_kinds = set()
+    not_reproduced = 0
     new_viol = []
     for r in viol:
         k = match_known(known, mod.ID, r.get('finding_key'))
@@ -1116,6 +1117,11 @@ def main_check(cid, tier, base_seed, jobs=None):
         full = run_case(mod, case)
         if full['status'] != 'violation':
             herr.append('violation at idx %d did not reproduce in the parent process' % r['idx'])
+            # a verdict that depended on what the worker had run before (a process-level cache in the code under
+            # test): try later cases of the same kind, a few times, for one that fails on its own
+            not_reproduced += 1
+            if not_reproduced <= 8:
+                seen_kinds.discard(sig)
             continue
         best, best_res, runs, notes = minimise(mod, case, full)
         if match_known(known, mod.ID, best_res.get('finding_key')) is not None and \
